@@ -827,13 +827,12 @@ def generate(unit, canary=False, expand=True):
         cut = hoist_bodies[name]
         ttoks = toks[item.start:item.end]
         # body tokens of template helper (between braces) must equal the cut text, else replace
-        body_t = [t.text for t in toks[item.body_open + 1:item.end - 1]]
-        body_s = [t.text for t in cut]
-        if body_t == body_s:
-            out_chunks[slot] = render(ttoks)
-        else:
-            head = toks[item.start:item.body_open + 1]
-            out_chunks[slot] = render(head) + ' ' + render(cut) + ' }'
+        # the helper is external_body: its contract is assumed here and discharged by the Kani harness that
+        # receives the same cut text; the text itself is recorded (rustc would have to type-check it against
+        # types this unit leaves opaque, so it is carried as a comment)
+        head = toks[item.start:item.body_open + 1]
+        txt = ' '.join(t.text for t in cut).replace('*/', '* /')
+        out_chunks[slot] = render(head) + ' /* hoisted text: ' + txt + ' */ unimplemented!() }'
     # line spans of the generated items
     cum = [0]
     for c in out_chunks:
